@@ -1703,6 +1703,7 @@ string StringReader::get_line(bool advance) {
   }
 
   string ret;
+  bool terminated = false;
   for (;;) {
     size_t ch_offset = this->offset + ret.size();
     if (ch_offset >= this->length) {
@@ -1712,11 +1713,14 @@ string StringReader::get_line(bool advance) {
     if (ch != '\n') {
       ret += ch;
     } else {
+      terminated = true;
       break;
     }
   }
   if (advance) {
-    this->offset += (ret.size() + 1);
+    // Only skip the newline if there is one; an unterminated last line ends at
+    // the end of the data
+    this->offset += ret.size() + (terminated ? 1 : 0);
   }
   if (ends_with(ret, "\r")) {
     ret.pop_back();
